@@ -16,6 +16,14 @@ void __log_event(enum log_type type, const char *file, int line,
 { (void)type; (void)file; (void)line; (void)function; (void)s; (void)format; }
 
 #ifdef VERIF_CBMC
+/* glibc functions CBMC 6.11 has no model for (a call would return an arbitrary value and make the run inconclusive): a change
+ * to the code under test may start using them */
+size_t strnlen(const char *s, size_t n) { size_t i = 0; while (i < n && s[i] != 0) i++; return i; }
+char *strchrnul(const char *s, int c) { while (*s && *s != (char)c) s++; return (char *)s; }
+char *stpcpy(char *d, const char *s) { while ((*d = *s) != 0) { d++; s++; } return d; }
+void *mempcpy(void *d, const void *s, size_t n) { for (size_t i = 0; i < n; i++) ((char *)d)[i] = ((const char *)s)[i]; return (char *)d + n; }
+void *memrchr(const void *s, int c, size_t n) { while (n > 0) { n--; if (((const unsigned char *)s)[n] == (unsigned char)c) return (void *)((const unsigned char *)s + n); } return 0; }
+
 void abort(void)
 {
     __CPROVER_assert(0, "C07,C08,C10,C14: abort() reached (ut_assert/assert failed)");
